@@ -150,6 +150,15 @@ pub fn build(a: &LensArgs) -> LensCfg {
             cfg.drop_menu = a.drop_menu.clone().unwrap_or_else(|| vec![0, 1]);
             cfg.action_menu = a.action_menu.clone().unwrap_or_else(|| vec![]);
         },
+        // dyn with automatic collections on (seed family ga: thresholds prepared by the construction prefix)
+        "dynauto" => {
+            cfg.name = "dynauto";
+            cfg.codes = codes(&[Dup, Drop, Collect, TakeG, DropG]);
+            cfg.seed_codes = codes(&[New, Dup, Store, Drop, SetFin, SetDrop, Collect, SetBufThr, SetAuto]);
+            cfg.fin_menu = a.fin_menu.clone().unwrap_or_else(|| vec![0, 18]);
+            cfg.drop_menu = a.drop_menu.clone().unwrap_or_else(|| vec![0, 7]);
+            cfg.auto_lens = true;
+        },
         "sat" => {
             cfg.name = "sat";
             cfg.codes = codes(&[New, Dup, Drop, Store, Collect, Downgrade, Upgrade, DupWeak, DropWeak, FillStrong, FillWeak, FillBag, DropStash, CloneExpectPanic, DowngradeExpectPanic, UpgradeExpectPanic, DupWeakExpectPanic]);
